@@ -10,7 +10,7 @@
    All facts about the tables are decided by vm_compute over the 256 configurations and
    lifted by soundness lemmas that are ordinary proofs. *)
 From Coq Require Import List ZArith NArith Lia Bool Permutation.
-From Sdfx Require Import Generated.MarchTables.
+From Sdfx Require Import Generated.MarchTables Render.Balance.
 Import ListNotations.
 Open Scope Z_scope.
 
@@ -18,110 +18,42 @@ Open Scope Z_scope.
 
 (* a lattice edge: base point (x,y,z) and axis 0/1/2 *)
 Definition gv := (Z * Z * Z * Z)%type.
-Definition dedge := (gv * gv)%type.
-Definition tri := (gv * gv * gv)%type.
+Notation dedge := (gv * gv)%type.
+Notation tri := (gv * gv * gv)%type.
 
 Definition gv_eqb (a b : gv) : bool :=
   let '(ax, ay, az, aa) := a in let '(bx, by_, bz, ba) := b in
   (ax =? bx) && (ay =? by_) && (az =? bz) && (aa =? ba).
-Definition de_eqb (e f : dedge) : bool := gv_eqb (fst e) (fst f) && gv_eqb (snd e) (snd f).
 
 Lemma gv_eqb_eq a b : gv_eqb a b = true <-> a = b.
 Proof.
   destruct a as [[[ax ay] az] aa], b as [[[bx by_] bz] ba]; unfold gv_eqb.
   rewrite !andb_true_iff, !Z.eqb_eq. split; [intros [[[-> ->] ->] ->]; reflexivity | intros [= -> -> -> ->]; auto].
 Qed.
-Lemma gv_eqb_refl a : gv_eqb a a = true.
-Proof. now apply gv_eqb_eq. Qed.
-Lemma de_eqb_eq e f : de_eqb e f = true <-> e = f.
-Proof.
-  destruct e as [a b], f as [c d]; unfold de_eqb; cbn [fst snd].
-  rewrite andb_true_iff, !gv_eqb_eq. split; [intros [-> ->]; reflexivity | intros [= -> ->]; auto].
-Qed.
-Lemma de_eqb_refl e : de_eqb e e = true.
-Proof. now apply de_eqb_eq. Qed.
-Lemma de_eqb_neq e f : de_eqb e f = false <-> e <> f.
-Proof. rewrite <- de_eqb_eq. destruct (de_eqb e f); split; congruence. Qed.
 
-Definition revE (e : dedge) : dedge := (snd e, fst e).
-Lemma revE_invol e : revE (revE e) = e.
-Proof. now destruct e. Qed.
+(* ------------------------------------------------------------------ directed-edge balance
+   (Balance.v at the vertex type gv) *)
+Definition bal : list dedge -> dedge -> Z := Balance.bal gv_eqb.
+Definition bal_eq_check : list dedge -> list dedge -> bool := Balance.bal_eq_check gv_eqb.
 
-Definition tri_edges (t : tri) : list dedge := let '(a, b, c) := t in [(a, b); (b, c); (c, a)].
-Definition edges_of (ts : list tri) : list dedge := flat_map tri_edges ts.
-
-(* ------------------------------------------------------------------ directed-edge balance *)
-
-Fixpoint cnt (e : dedge) (l : list dedge) : Z :=
-  match l with
-  | [] => 0
-  | f :: r => (if de_eqb e f then 1 else 0) + cnt e r
-  end.
-Definition bal (l : list dedge) (e : dedge) : Z := cnt e l - cnt (revE e) l.
-
-Lemma cnt_app e l m : cnt e (l ++ m) = cnt e l + cnt e m.
-Proof. induction l as [|f l IH]; cbn [cnt app]; [reflexivity | rewrite IH; ring]. Qed.
-Lemma cnt_nonneg e l : 0 <= cnt e l.
-Proof. induction l as [|f l IH]; cbn [cnt]; [lia | destruct (de_eqb e f); lia]. Qed.
-Lemma cnt_notin e l : ~ In e l -> cnt e l = 0.
-Proof.
-  induction l as [|f l IH]; cbn [cnt In]; intros H; [reflexivity|].
-  destruct (de_eqb e f) eqn:E; [apply de_eqb_eq in E; subst; tauto | rewrite IH; tauto].
-Qed.
 Lemma bal_app l m e : bal (l ++ m) e = bal l e + bal m e.
-Proof. unfold bal. rewrite !cnt_app. ring. Qed.
+Proof. apply Balance.bal_app. Qed.
 Lemma bal_nil e : bal [] e = 0.
 Proof. reflexivity. Qed.
 Lemma bal_rev l e : bal l (revE e) = - bal l e.
-Proof. unfold bal. rewrite revE_invol. ring. Qed.
+Proof. apply Balance.bal_rev. Qed.
 Lemma bal_flat_map {A} (f : A -> list dedge) (l : list A) e :
   bal (flat_map f l) e = fold_right Z.add 0 (map (fun x => bal (f x) e) l).
-Proof. induction l as [|x l IH]; cbn [flat_map map fold_right]; [reflexivity | rewrite bal_app, IH; reflexivity]. Qed.
-
-(* image under a vertex map *)
-Definition mapE (f : gv -> gv) (e : dedge) : dedge := (f (fst e), f (snd e)).
-Lemma cnt_map_bij (f g : gv -> gv) (Hgf : forall v, g (f v) = v) (Hfg : forall v, f (g v) = v) e l :
-  cnt e (map (mapE f) l) = cnt (mapE g e) l.
-Proof.
-  induction l as [|h l IH]; cbn [cnt map]; [reflexivity|]. rewrite IH. f_equal.
-  destruct (de_eqb e (mapE f h)) eqn:E1, (de_eqb (mapE g e) h) eqn:E2; try reflexivity.
-  - apply de_eqb_eq in E1. apply de_eqb_neq in E2. exfalso; apply E2. subst e. destruct h; unfold mapE; cbn. now rewrite !Hgf.
-  - apply de_eqb_eq in E2. apply de_eqb_neq in E1. exfalso; apply E1. subst h. destruct e; unfold mapE; cbn. now rewrite !Hfg.
-Qed.
+Proof. apply Balance.bal_flat_map. Qed.
 Lemma bal_map_bij (f g : gv -> gv) (Hgf : forall v, g (f v) = v) (Hfg : forall v, f (g v) = v) e l :
   bal (map (mapE f) l) e = bal l (mapE g e).
-Proof. unfold bal. rewrite !(cnt_map_bij f g Hgf Hfg). reflexivity. Qed.
-Lemma cnt_map_rev e l : cnt e (map revE l) = cnt (revE e) l.
-Proof.
-  induction l as [|h l IH]; cbn [cnt map]; [reflexivity|]. rewrite IH. f_equal.
-  destruct (de_eqb e (revE h)) eqn:E1, (de_eqb (revE e) h) eqn:E2; try reflexivity.
-  - apply de_eqb_eq in E1. apply de_eqb_neq in E2. exfalso; apply E2. subst e. apply revE_invol.
-  - apply de_eqb_eq in E2. apply de_eqb_neq in E1. exfalso; apply E1. subst h. now rewrite revE_invol.
-Qed.
-Lemma bal_map_rev l e : bal (map revE l) e = - bal l e.
-Proof. unfold bal. rewrite !cnt_map_rev, revE_invol. ring. Qed.
-
-(* decision procedure: two edge lists have the same balance function *)
-Definition bal_eq_check (l m : list dedge) : bool :=
-  forallb (fun e => bal l e =? bal m e) (l ++ m).
-
+Proof. now apply (Balance.bal_map_bij gv_eqb gv_eqb_eq). Qed.
+Lemma bal_map_rev l e : bal (map (@revE gv) l) e = - bal l e.
+Proof. apply Balance.bal_map_rev. Qed.
 Lemma bal_eq_check_sound l m : bal_eq_check l m = true -> forall e, bal l e = bal m e.
-Proof.
-  unfold bal_eq_check. rewrite forallb_forall. intros H e.
-  destruct (in_dec (fun a b => match de_eqb a b as x return de_eqb a b = x -> {a = b} + {a <> b} with
-                               | true => fun E => left (proj1 (de_eqb_eq a b) E)
-                               | false => fun E => right (proj1 (de_eqb_neq a b) E)
-                               end eq_refl) e (l ++ m)) as [Hin|Hnin].
-  - apply Z.eqb_eq. now apply H.
-  - destruct (in_dec (fun a b => match de_eqb a b as x return de_eqb a b = x -> {a = b} + {a <> b} with
-                               | true => fun E => left (proj1 (de_eqb_eq a b) E)
-                               | false => fun E => right (proj1 (de_eqb_neq a b) E)
-                               end eq_refl) (revE e) (l ++ m)) as [Hin'|Hnin'].
-    + specialize (H _ Hin'). apply Z.eqb_eq in H. rewrite !bal_rev in H. lia.
-    + unfold bal. assert (X : forall x, ~ In x (l ++ m) -> cnt x l = 0 /\ cnt x m = 0).
-      { intros x Hx. split; apply cnt_notin; intro; apply Hx; apply in_or_app; tauto. }
-      destruct (X _ Hnin) as [-> ->], (X _ Hnin') as [-> ->]. reflexivity.
-Qed.
+Proof. apply (Balance.bal_eq_check_sound gv_eqb gv_eqb_eq). Qed.
+Lemma bal_nonzero_in l e : bal l e <> 0 -> In e l \/ In (revE e) l.
+Proof. apply (Balance.bal_nonzero_in gv_eqb gv_eqb_eq). Qed.
 
 (* ------------------------------------------------------------------ the cell *)
 
@@ -156,6 +88,16 @@ Fixpoint chunk3 (l : list N) : list (N * N * N) :=
 Definition local_tris (cfg : N) : list (N * N * N) := chunk3 (tri_row cfg).
 Definition cell_tris (cfg : N) : list tri :=
   map (fun t : N * N * N => let '(a, b, c) := t in (ledge a, ledge b, ledge c)) (local_tris cfg).
+
+(* index |= 1 << i  for each corner with v[i] < x *)
+Definition b2n (b : bool) : N := if b then 1%N else 0%N.
+Definition cfg_of_bools (b0 b1 b2 b3 b4 b5 b6 b7 : bool) : N :=
+  (b2n b0 + 2 * b2n b1 + 4 * b2n b2 + 8 * b2n b3 + 16 * b2n b4 + 32 * b2n b5 + 64 * b2n b6 + 128 * b2n b7)%N.
+Lemma cfg_of_bools_spec b0 b1 b2 b3 b4 b5 b6 b7 :
+  let c := cfg_of_bools b0 b1 b2 b3 b4 b5 b6 b7 in
+  (c < 256)%N /\ N.testbit c 0 = b0 /\ N.testbit c 1 = b1 /\ N.testbit c 2 = b2 /\ N.testbit c 3 = b3 /\
+  N.testbit c 4 = b4 /\ N.testbit c 5 = b5 /\ N.testbit c 6 = b6 /\ N.testbit c 7 = b7.
+Proof. destruct b0, b1, b2, b3, b4, b5, b6, b7; vm_compute; repeat split. Qed.
 
 Definition cfgs : list N := map N.of_nat (seq 0 256).
 Definition ledges12 : list N := map N.of_nat (seq 0 12).
@@ -213,22 +155,22 @@ Definition coord (d : Z) (v : gv) : Z :=
 Definition axis_of (v : gv) : Z := let '(_, _, _, a) := v in a.
 Definition unit (d : Z) : Z * Z * Z :=
   if d =? 0 then (1, 0, 0) else if d =? 1 then (0, 1, 0) else (0, 0, 1).
-Definition shiftv (p : Z * Z * Z) (v : gv) : gv :=
-  let '(px, py, pz) := p in let '(x, y, z, a) := v in (x + px, y + py, z + pz, a).
 Definition negp (p : Z * Z * Z) : Z * Z * Z := let '(px, py, pz) := p in (- px, - py, - pz).
 Definition addp (p q : Z * Z * Z) : Z * Z * Z :=
   let '(px, py, pz) := p in let '(qx, qy, qz) := q in (px + qx, py + qy, pz + qz).
+(* a vertex is (base point, axis): translation acts on the base point *)
+Definition shiftv (p : Z * Z * Z) (v : gv) : gv := (addp p (fst v), snd v).
 Definition shiftE (p : Z * Z * Z) : dedge -> dedge := mapE (shiftv p).
 Definition shiftT (p : Z * Z * Z) (t : tri) : tri := let '(a, b, c) := t in (shiftv p a, shiftv p b, shiftv p c).
 
 Lemma gv_ext (x y z a x' y' z' a' : Z) : x = x' -> y = y' -> z = z' -> a = a' -> (x, y, z, a) = (x', y', z', a').
 Proof. congruence. Qed.
 Lemma shiftv_neg p v : shiftv (negp p) (shiftv p v) = v.
-Proof. destruct p as [[px py] pz], v as [[[x y] z] a]; unfold shiftv, negp, addp. apply gv_ext; lia. Qed.
+Proof. destruct p as [[px py] pz], v as [[[x y] z] a]; unfold shiftv, negp, addp; cbn [fst snd]. apply gv_ext; lia. Qed.
 Lemma shiftv_neg' p v : shiftv p (shiftv (negp p) v) = v.
-Proof. destruct p as [[px py] pz], v as [[[x y] z] a]; unfold shiftv, negp, addp. apply gv_ext; lia. Qed.
+Proof. destruct p as [[px py] pz], v as [[[x y] z] a]; unfold shiftv, negp, addp; cbn [fst snd]. apply gv_ext; lia. Qed.
 Lemma shiftv_add p q v : shiftv p (shiftv q v) = shiftv (addp p q) v.
-Proof. destruct p as [[px py] pz], q as [[qx qy] qz], v as [[[x y] z] a]; unfold shiftv, negp, addp. apply gv_ext; lia. Qed.
+Proof. destruct p as [[px py] pz], q as [[qx qy] qz], v as [[[x y] z] a]; unfold shiftv, negp, addp; cbn [fst snd]. apply gv_ext; lia. Qed.
 Lemma bal_shift p l e : bal (map (shiftE p) l) e = bal l (shiftE (negp p) e).
 Proof. apply bal_map_bij; [apply shiftv_neg | apply shiftv_neg']. Qed.
 
@@ -242,7 +184,6 @@ Definition face_verts (d s : Z) : list gv := filter (in_face d s) (map ledge led
 Definition face_corner (d s u v : Z) : N :=
   if d =? 0 then corner_at s u v else if d =? 1 then corner_at u s v else corner_at u v s.
 (* four-bit signature of the face  coord d = s : bit (u + 2v) = sign bit of that corner *)
-Definition b2n (b : bool) : N := if b then 1%N else 0%N.
 Definition facesig (d s : Z) (cfg : N) : N :=
   (b2n (N.testbit cfg (face_corner d s 0 0)) + 2 * b2n (N.testbit cfg (face_corner d s 1 0)) +
    4 * b2n (N.testbit cfg (face_corner d s 0 1)) + 8 * b2n (N.testbit cfg (face_corner d s 1 1)))%N.
@@ -272,3 +213,204 @@ Definition cell_check (cfg : N) : bool := bal_eq_check (edges_of (cell_tris cfg)
 Definition cell_table_check : bool := forallb cell_check cfgs.
 
 Definition sigs : list N := map N.of_nat (seq 0 16).
+
+(* ------------------------------------------------------------------ further decided checks *)
+
+(* unbalanced directed edges of a cell patch lie in a common face of the cell *)
+Definition faces6 : list (Z * Z) := [(0, 0); (0, 1); (1, 0); (1, 1); (2, 0); (2, 1)].
+Definition common_face (e : dedge) : bool :=
+  existsb (fun ds : Z * Z => in_face (fst ds) (snd ds) (fst e) && in_face (fst ds) (snd ds) (snd e)) faces6.
+Definition boundary_check (cfg : N) : bool :=
+  let es := edges_of (cell_tris cfg) in forallb (fun e => (bal es e =? 0) || common_face e) es.
+
+(* what a configuration leaves in its lower / upper face normal to d is the canonical pattern of
+   that face's signature, resp. its reverse *)
+Definition face_check (cfg : N) : bool :=
+  let es := edges_of (cell_tris cfg) in
+  forallb (fun d =>
+    let p0 := fpat d (facesig d 0 cfg) in
+    let p1 := fpat d (facesig d 1 cfg) in
+    forallb (fun e => (bal es e =? bal p0 e) && (bal es (shiftE (unit d) e) =? - bal p1 e))
+            (ordered_pairs (face_verts d 0))) [0; 1; 2].
+
+(* ---- orientation rule, in doubled integer coordinates (crossings placed at edge midpoints) *)
+Definition sub3 (p q : Z * Z * Z) : Z * Z * Z := addp p (negp q).
+Definition dot3 (p q : Z * Z * Z) : Z :=
+  let '(px, py, pz) := p in let '(qx, qy, qz) := q in px * qx + py * qy + pz * qz.
+Definition cross3 (p q : Z * Z * Z) : Z * Z * Z :=
+  let '(px, py, pz) := p in let '(qx, qy, qz) := q in (py * qz - pz * qy, pz * qx - px * qz, px * qy - py * qx).
+Definition mid2 (v : gv) : Z * Z * Z := let '(x, y, z, a) := v in addp (2 * x, 2 * y, 2 * z) (unit a).
+Definition base_corner (v : gv) : N := let '(x, y, z, _) := v in corner_at x y z.
+(* direction from the void end to the solid end of the (sign-changing) lattice edge v *)
+Definition sdir (cfg : N) (v : gv) : Z * Z * Z :=
+  if N.testbit cfg (base_corner v) then negp (unit (axis_of v)) else unit (axis_of v).
+(* outward normal of the face  coord d = s  of the cell *)
+Definition outward (d s : Z) : Z * Z * Z := if s =? 0 then negp (unit d) else unit d.
+(* in-face normal of the directed segment e: (direction) x (outward normal) *)
+Definition solid_side (d s : Z) (e : dedge) : Z * Z * Z :=
+  cross3 (sub3 (mid2 (snd e)) (mid2 (fst e))) (outward d s).
+Definition orient_rule (cfg : N) (d s : Z) (e : dedge) : bool :=
+  (0 <? dot3 (solid_side d s e) (sdir cfg (fst e))) && (0 <? dot3 (solid_side d s e) (sdir cfg (snd e))).
+Definition orient_check (cfg : N) : bool :=
+  let es := edges_of (cell_tris cfg) in
+  forallb (fun ds : Z * Z =>
+    forallb (fun e => implb (0 <? bal es e) (orient_rule cfg (fst ds) (snd ds) e))
+            (ordered_pairs (face_verts (fst ds) (snd ds)))) faces6.
+
+(* ------------------------------------------------------------------ soundness of the checks *)
+
+Lemma pairs_ok : pairs_check = true.
+Proof. vm_compute. reflexivity. Qed.
+Lemma edge_table_ok_c : edge_table_check = true.
+Proof. vm_compute. reflexivity. Qed.
+Lemma tri_table_ok_c : tri_table_check = true.
+Proof. vm_compute. reflexivity. Qed.
+Lemma used_table_ok_c : used_table_check = true.
+Proof. vm_compute. reflexivity. Qed.
+Lemma boundary_ok_c : forallb boundary_check cfgs = true.
+Proof. vm_compute. reflexivity. Qed.
+Lemma face_ok_c : forallb face_check cfgs = true.
+Proof. vm_compute. reflexivity. Qed.
+Lemma orient_ok_c : forallb orient_check cfgs = true.
+Proof. vm_compute. reflexivity. Qed.
+
+Lemma forallb_ledges (f : N -> bool) : forallb f ledges12 = true -> forall e, (e < 12)%N -> f e = true.
+Proof. intros H e He. rewrite forallb_forall in H. apply H. now apply in_ledges12. Qed.
+
+(* mcPairTable *)
+Lemma pair_table_ok e : (e < 12)%N -> pair_is_edge e = true.
+Proof.
+  pose proof pairs_ok as H. unfold pairs_check in H. rewrite !andb_true_iff in H. destruct H as [[_ H] _].
+  now apply forallb_ledges.
+Qed.
+Lemma distinct_gv_NoDup l : distinct_gv l = true -> NoDup l.
+Proof.
+  induction l as [|x l IH]; cbn [distinct_gv]; intros H; [constructor|].
+  apply andb_true_iff in H as [H1 H2]. constructor; [|now apply IH].
+  intros Hin. apply negb_true_iff in H1. assert (X : existsb (gv_eqb x) l = true); [|congruence].
+  apply existsb_exists. exists x. split; [exact Hin | now apply gv_eqb_eq].
+Qed.
+Lemma ledges_distinct : NoDup (map ledge ledges12).
+Proof.
+  apply distinct_gv_NoDup. pose proof pairs_ok as H. unfold pairs_check in H. rewrite !andb_true_iff in H. tauto.
+Qed.
+
+(* mcEdgeTable *)
+Lemma edge_row_ok cfg : (cfg < 256)%N -> edge_row_check cfg = true.
+Proof.
+  pose proof edge_table_ok_c as H. unfold edge_table_check in H. apply andb_true_iff in H as [_ H].
+  now apply forallb_cfgs.
+Qed.
+Lemma edge_table_ok cfg e : (cfg < 256)%N -> (e < 12)%N -> N.testbit (edge_mask cfg) e = crossing cfg e.
+Proof.
+  intros Hc He. pose proof (edge_row_ok cfg Hc) as H. unfold edge_row_check in H. apply andb_true_iff in H as [H _].
+  apply eqb_prop. now apply (forallb_ledges _ H).
+Qed.
+Lemma edge_mask_lt cfg : (cfg < 256)%N -> (edge_mask cfg < 4096)%N.
+Proof.
+  intros Hc. pose proof (edge_row_ok cfg Hc) as H. unfold edge_row_check in H. apply andb_true_iff in H as [_ H].
+  now apply N.ltb_lt.
+Qed.
+
+(* mcTriangleTable *)
+Lemma tri_row_ok cfg : (cfg < 256)%N -> tri_row_check cfg = true.
+Proof.
+  pose proof tri_table_ok_c as H. unfold tri_table_check in H. apply andb_true_iff in H as [_ H].
+  now apply forallb_cfgs.
+Qed.
+Lemma tris_use_crossing_edges cfg e : (cfg < 256)%N -> In e (tri_row cfg) -> (e < 12)%N /\ crossing cfg e = true.
+Proof.
+  intros Hc Hin. pose proof (tri_row_ok cfg Hc) as H. unfold tri_row_check in H. rewrite !andb_true_iff in H.
+  destruct H as [[_ H] _]. rewrite forallb_forall in H. specialize (H e Hin). apply andb_true_iff in H as [H1 H2].
+  apply N.ltb_lt in H1. split; [exact H1|]. now rewrite <- edge_table_ok.
+Qed.
+Lemma tri_rows_whole cfg : (cfg < 256)%N -> (N.of_nat (length (tri_row cfg)) mod 3 = 0)%N.
+Proof.
+  intros Hc. pose proof (tri_row_ok cfg Hc) as H. unfold tri_row_check in H. rewrite !andb_true_iff in H.
+  destruct H as [[H _] _]. now apply N.eqb_eq.
+Qed.
+Lemma tris_three_edges cfg a b c : (cfg < 256)%N -> In (a, b, c) (local_tris cfg) -> a <> b /\ b <> c /\ a <> c.
+Proof.
+  intros Hc Hin. pose proof (tri_row_ok cfg Hc) as H. unfold tri_row_check in H. rewrite !andb_true_iff in H.
+  destruct H as [_ H]. rewrite forallb_forall in H. specialize (H _ Hin). cbn in H.
+  rewrite !andb_true_iff, !negb_true_iff, !N.eqb_neq in H. tauto.
+Qed.
+Lemma used_ok cfg : (cfg < 256)%N -> used_check cfg = true.
+Proof. apply forallb_cfgs. exact used_table_ok_c. Qed.
+Lemma crossing_edges_used cfg e : (cfg < 256)%N -> (e < 12)%N -> crossing cfg e = true -> In e (tri_row cfg).
+Proof.
+  intros Hc He Hx. pose proof (used_ok cfg Hc) as H. unfold used_check in H. apply andb_true_iff in H as [H _].
+  pose proof (forallb_ledges _ H e He) as H'. cbn beta in H'. rewrite Hx in H'. cbn [implb] in H'.
+  apply existsb_exists in H' as (x & Hin & E). apply N.eqb_eq in E. now subst x.
+Qed.
+Lemma nonempty cfg : (cfg < 256)%N -> cfg <> 0%N -> cfg <> 255%N -> local_tris cfg <> [].
+Proof.
+  intros Hc H0 H255. pose proof (used_ok cfg Hc) as H. unfold used_check in H. apply andb_true_iff in H as [_ H].
+  apply N.eqb_neq in H0, H255. rewrite H0, H255 in H. cbn [negb andb implb] in H.
+  intros E. rewrite E in H. discriminate.
+Qed.
+
+(* boundary of the cell patch lies in the faces *)
+Lemma common_face_rev e : common_face (revE e) = common_face e.
+Proof.
+  unfold common_face. destruct e as [a b]. cbn [revE fst snd].
+  induction faces6 as [|ds l IH]; [reflexivity|]. cbn [existsb]. rewrite IH. f_equal. apply andb_comm.
+Qed.
+Lemma cell_boundary_on_faces cfg e : (cfg < 256)%N -> bal (edges_of (cell_tris cfg)) e <> 0 -> common_face e = true.
+Proof.
+  intros Hc Hb. pose proof (forallb_cfgs _ boundary_ok_c cfg Hc) as H. unfold boundary_check in H.
+  rewrite forallb_forall in H. destruct (bal_nonzero_in _ _ Hb) as [Hin|Hin].
+  - specialize (H _ Hin). apply orb_true_iff in H as [H|H]; [apply Z.eqb_eq in H; contradiction | exact H].
+  - specialize (H _ Hin). rewrite bal_rev in H. apply orb_true_iff in H as [H|H]; [apply Z.eqb_eq in H; lia |].
+    now rewrite common_face_rev in H.
+Qed.
+
+Lemma in_ordered_pairs (l : list gv) a b : In a l -> In b l -> a <> b -> In (a, b) (ordered_pairs l).
+Proof.
+  intros Ha Hb Hab. unfold ordered_pairs. apply in_flat_map. exists a. split; [exact Ha|].
+  apply in_flat_map. exists b. split; [exact Hb|].
+  destruct (gv_eqb a b) eqn:E; [apply gv_eqb_eq in E; contradiction | now left].
+Qed.
+Lemma bal_loop l a : bal l (a, a) = 0.
+Proof. apply Balance.bal_loop. Qed.
+
+(* the lower face normal to d carries the pattern of its signature, the upper face its reverse *)
+Lemma face_contribution cfg d a b : (cfg < 256)%N -> d = 0 \/ d = 1 \/ d = 2 ->
+  In a (face_verts d 0) -> In b (face_verts d 0) ->
+  bal (edges_of (cell_tris cfg)) (a, b) = bal (fpat d (facesig d 0 cfg)) (a, b) /\
+  bal (edges_of (cell_tris cfg)) (shiftE (unit d) (a, b)) = - bal (fpat d (facesig d 1 cfg)) (a, b).
+Proof.
+  intros Hc Hd Ha Hb. destruct (gv_eqb a b) eqn:E.
+  - apply gv_eqb_eq in E. subst b. unfold shiftE, mapE; cbn [fst snd]. rewrite !bal_loop. split; reflexivity.
+  - assert (Hab : a <> b) by (intro X; subst; rewrite (proj2 (gv_eqb_eq b b) eq_refl) in E; discriminate).
+    pose proof (forallb_cfgs _ face_ok_c cfg Hc) as H. unfold face_check in H. rewrite forallb_forall in H.
+    assert (Hin : In d [0; 1; 2]) by (cbn; intuition).
+    specialize (H d Hin). cbv zeta in H. rewrite forallb_forall in H.
+    specialize (H (a, b) (in_ordered_pairs _ a b Ha Hb Hab)).
+    apply andb_true_iff in H as [H1 H2]. apply Z.eqb_eq in H1, H2. split; assumption.
+Qed.
+
+(* all face-adjacent pairs: cell c1 below, cell c2 above along d, agreeing on the shared face *)
+Lemma face_pairs_cancel c1 c2 d a b : (c1 < 256)%N -> (c2 < 256)%N -> d = 0 \/ d = 1 \/ d = 2 ->
+  facesig d 1 c1 = facesig d 0 c2 -> In a (face_verts d 0) -> In b (face_verts d 0) ->
+  bal (edges_of (cell_tris c1)) (shiftE (unit d) (a, b)) + bal (edges_of (cell_tris c2)) (a, b) = 0.
+Proof.
+  intros H1 H2 Hd Hs Ha Hb.
+  destruct (face_contribution c1 d a b H1 Hd Ha Hb) as [_ U].
+  destruct (face_contribution c2 d a b H2 Hd Ha Hb) as [L _].
+  rewrite U, L, Hs. apply Z.add_opp_diag_l.
+Qed.
+
+(* orientation: each boundary segment has the solid ends of the two lattice edges it joins on the
+   side  (direction) x (outward face normal) *)
+Lemma orientation cfg d s a b : (cfg < 256)%N -> In (d, s) faces6 ->
+  In a (face_verts d s) -> In b (face_verts d s) -> 0 < bal (edges_of (cell_tris cfg)) (a, b) ->
+  orient_rule cfg d s (a, b) = true.
+Proof.
+  intros Hc Hds Ha Hb Hpos.
+  assert (Hab : a <> b) by (intro X; subst; rewrite bal_loop in Hpos; lia).
+  pose proof (forallb_cfgs _ orient_ok_c cfg Hc) as H. unfold orient_check in H. rewrite forallb_forall in H.
+  specialize (H _ Hds). cbn [fst snd] in H. rewrite forallb_forall in H.
+  specialize (H (a, b) (in_ordered_pairs _ a b Ha Hb Hab)).
+  apply Z.ltb_lt in Hpos. rewrite Hpos in H. exact H.
+Qed.
